@@ -9,6 +9,8 @@ import (
 	"os"
 	"path/filepath"
 	"runtime"
+	"runtime/debug"
+	"runtime/pprof"
 	"strconv"
 	"time"
 
@@ -16,6 +18,7 @@ import (
 )
 
 func main() {
+	debug.SetGCPercent(800)
 	if len(os.Args) < 2 {
 		fmt.Println("usage: vcheck run|replay|list ...")
 		os.Exit(2)
@@ -61,7 +64,14 @@ func run(args []string) int {
 	verbose := fs.Bool("v", false, "")
 	propose := fs.Bool("propose-known", false, "developer only: print candidate known-findings lines")
 	only := fs.String("only", "", "developer only: run only jobs whose key contains this")
+	prof := fs.String("cpuprofile", "", "developer only")
+	maxPaths := fs.Int("maxpaths", 0, "developer only: override the per-job path budget")
 	fs.Parse(args)
+	if *prof != "" {
+		f, _ := os.Create(*prof)
+		pprof.StartCPUProfile(f)
+		defer pprof.StopCPUProfile()
+	}
 	if *tier == "" {
 		*tier = os.Getenv("VERIF_TIER")
 	}
@@ -89,6 +99,11 @@ func run(args []string) int {
 	if err != nil {
 		fmt.Println("machinery error:", err)
 		return 2
+	}
+	if *maxPaths > 0 {
+		for _, j := range spec.Jobs {
+			j.MaxPaths = *maxPaths
+		}
 	}
 	if spec.Extra == nil {
 		spec.Extra = map[string]interface{}{}
